@@ -141,6 +141,47 @@ def window_case(draw, tier):
     return case
 
 
+def body_sequence(case, ctx):
+    """several reads of ONE packed object in a generated order: no read may change what a later read returns"""
+    per = classify(case, ctx)
+    a, b = case["vals"], case["b"]
+    n = len(a)
+    ctx.nt(n > per and len(case["ops"]) >= 2)
+    p = lib(pack, case)
+    if not p.ok:
+        raise Violation("sequence:pack-refused", got=p.brief())
+    p = p.value
+    for k, op in enumerate(case["ops"]):
+        ctx.label("seq:" + op[0])
+        if op[0] == "unpack":
+            got = lib(lambda: [int(x) for x in p.unpack()])
+            exp = a
+        elif op[0] == "window":
+            w = 1 + op[1] % per
+            got = lib(lambda: [int(x) for x in p.sliding_window(w)])
+            exp = window_expected(a, b, w) if n >= w else []
+        elif op[0] == "int":
+            i = op[1] % n
+            got = lib(lambda: int(p[i]))
+            exp = a[i]
+        else:
+            idx = [t % n for t in op[1]]
+            got = lib(lambda: [int(x) for x in p[np.array(idx, dtype=np.int64)].unpack()])
+            exp = [a[t] for t in idx]
+        if not got.ok or got.value != exp:
+            raise Violation("sequence:step", step=k, op=op, expected=exp if not isinstance(exp, list) else exp[:40], got=got.brief(), before=case["ops"][:k])
+
+
+@st.composite
+def sequence_case(draw, tier):
+    case = draw(bit_case(tier, need_n=1))
+    op = st.one_of(st.just(["unpack"]), st.tuples(st.just("window"), st.integers(0, 63)).map(list),
+                   st.tuples(st.just("int"), st.integers(0, 10**6)).map(list),
+                   st.tuples(st.just("list"), st.lists(st.integers(0, 10**6), min_size=1, max_size=5)).map(list))
+    case["ops"] = draw(st.lists(op, min_size=2, max_size=5))
+    return case
+
+
 # ---------------------------------------------------------------- exhaustive small scope
 
 def enum_chunks(tier):
@@ -173,6 +214,8 @@ SUBCHECKS = [
              doc="p[i] (Python / numpy int) and p[list or int array with repeats].unpack()"),
     SubCheck("sliding-window", body_window, window_case, quick=8000, thorough=200000, shards_quick=4,
              doc="sliding_window(w) for every w in 1..64/b incl. windows across register boundaries and n < w"),
+    SubCheck("read-sequence", body_sequence, sequence_case, quick=5000, thorough=200000, shards_quick=3,
+             doc="2-5 reads (unpack / sliding_window / p[i] / p[list]) of ONE packed object in generated order, each against the model"),
     SubCheck("enum", body_enum_all, kind="enum", chunks=enum_chunks, cases=enum_cases_window,
              doc="exhaustive: every b, every n <= 2*64/b+2, every w, two content patterns (all ones, position coded); "
                  "round trip and every position when w == 1"),
